@@ -424,6 +424,10 @@ pub trait Scheme: 'static + Sized {
     fn comm_with_shifted_of(_c: &Comm<Self>, _o: &Comm<Self>) -> Option<Comm<Self>> {
         None
     }
+    /// the commitment `c` with the group identity as its degree-bound part
+    fn comm_with_identity_shift(_c: &Comm<Self>) -> Option<Comm<Self>> {
+        None
+    }
     /// every single-component replacement / shape mutation of a proof: (name, mutated proof)
     fn proof_variants(_p: &Proof<Self>, _seed: u64) -> Vec<(String, Proof<Self>)> {
         vec![]
@@ -632,6 +636,9 @@ where
     fn comm_with_shifted_of(c: &Comm<Self>, o: &Comm<Self>) -> Option<Comm<Self>> {
         o.shifted_comm.map(|s| ark_poly_commit::marlin_pc::Commitment { comm: c.comm, shifted_comm: Some(s) })
     }
+    fn comm_with_identity_shift(c: &Comm<Self>) -> Option<Comm<Self>> {
+        Some(ark_poly_commit::marlin_pc::Commitment { comm: c.comm, shifted_comm: Some(ark_poly_commit::kzg10::Commitment(<E::G1Affine as ark_ec::AffineRepr>::zero())) })
+    }
 }
 pub struct SonicS<E>(PhantomData<E>);
 impl<E: Pairing + CurveName> Scheme for SonicS<E>
@@ -765,6 +772,9 @@ where
     }
     fn comm_with_shifted_of(c: &Comm<Self>, o: &Comm<Self>) -> Option<Comm<Self>> {
         o.shifted_comm.map(|s| ark_poly_commit::ipa_pc::Commitment { comm: c.comm, shifted_comm: Some(s) })
+    }
+    fn comm_with_identity_shift(c: &Comm<Self>) -> Option<Comm<Self>> {
+        Some(ark_poly_commit::ipa_pc::Commitment { comm: c.comm, shifted_comm: Some(<G as ark_ec::AffineRepr>::zero()) })
     }
 }
 pub struct Pst13S<E>(PhantomData<E>);
